@@ -2,7 +2,7 @@
     then the real one) produce a table of rule functions that meets [table_ok] of Proofs/SEmitSound.v, so every
     rule function of the file, run under the goto semantics of Model/Exec.v, does what the machine does. *)
 From PegV Require Import Base.Tac Spec.Syntax Spec.Peg Spec.WF Model.Machine Model.Analyses Model.Gen Model.Emit Model.SEmit Model.Exec
-  Proofs.EmitWF Proofs.SEmitSound Proofs.Sim Proofs.AsuSound Proofs.Top.
+  Proofs.EmitWF Proofs.SEmitSound Proofs.Sim Proofs.SimNoast Proofs.AsuSound Proofs.Top.
 From Coq Require Import List Arith Lia Bool.
 Import ListNotations.
 
@@ -204,5 +204,34 @@ Proof.
     rewrite mk_opts_emit in *. exact (emitted_file_sound g ptx true memo inline gen_asu buf penv Hd n r _ _ Hs Hr Hex R).
 Qed.
 
+(** -noast: the same for the parser without a token tree, whose actions are pasted into the rule functions
+    ([SLogAct k]: the text of action k runs there and then; the model logs (k, text register)) and whose captures
+    set the text register ([SCapture]).  The functions of the generated file return the verdict and the offset of
+    the semantics, and the actions have run in the order of Execute's loop over every event of the attempt. *)
+Definition gen_fn_noast (inline : bool) : nat -> option (list scode) := emitted_fn g ptx false inline gen_asu.
+
+Theorem generated_code_noast inline n r st0 rr :
+  (forall rb, nth_error g ptx = Some rb -> rb = RNil) ->
+  deep_table_b g inline = true -> o_inline (mk_opts false false inline g) r = false -> reached (count_rules g) r = true ->
+  peg_parse g ptx buf penv (S n) r = Some rr ->
+  exists st', xcall buf penv (mk_opts false false inline g) (gen_fn_noast inline) r (reset st0)
+                    (Ret (match fst rr with Fail => false | Succ _ _ => true end) st') /\
+    alog st' = Runtime.execute g ptx (snd rr) (text st0) /\
+    match fst rr with Succ p _ => pos st' = p /\ p <= length buf | Fail => True end.
+Proof.
+  intros Hptx Hd Hs Hr H. set (o := mk_opts false false inline g).
+  assert (Hasu' : forall r, o_asu o r = true -> forall n p evs, peg_ev g ptx buf penv n (EName r) p <> Some (Fail, evs)).
+  { intros r' Hr'. apply asu_rule_sound. unfold o, mk_opts in Hr'. cbn [o_asu] in Hr'. apply nth_map_seq in Hr'. exact Hr'. }
+  set (st := reset st0).
+  assert (Hp : pos st <= length buf) by (unfold st, reset; cbn; lia).
+  pose proof (rule_fn_simn g ptx buf penv o eq_refl Hg (Hsw inline) Hptx n
+                (simN g ptx buf penv o eq_refl Hg (Hsw inline) Hasu' Hbuf Hptx n) r st rr Hp H) as (st' & R & T & L & P).
+  assert (Hex : exists b, nth_error g r = Some b /\ b <> RNil).
+  { unfold peg_parse in H. cbn [peg_ev] in H. destruct (nth_error g r) as [[b|k|]|]; try discriminate; eexists; (split; [reflexivity|discriminate]). }
+  exists st'. split; [|split; [exact L|exact P]].
+  exact (emitted_file_sound g ptx false false inline gen_asu buf penv Hd n r _ _ Hs Hr Hex R).
+Qed.
+
 End EndToEnd.
 Print Assumptions generated_code_is_peg.
+Print Assumptions generated_code_noast.
